@@ -108,6 +108,8 @@ type State struct {
 	nowsAtLastLog int
 	rangeKeys     []Value
 	selectCount   int
+	sumDone       map[string]bool // sumInt instances whose defining equation is already assumed
+	mergeScalars  bool  // option merge-scalar-branches: pure scalar triangles/diamonds become ite instead of two paths
 	storeGuard    *Term // set while a defaulting triangle is executed speculatively: stores become guarded
 	ghostlog      map[string]bool
 	ghostlogContract map[string]bool // recorded callees whose own contract describes the results (ghostlog f+contract)
@@ -524,7 +526,9 @@ func (s *State) update(v Value, path []Sel, nv Value) Value {
 			return &ArrayV{Arr: &ArrStore{Base: c.Arr, Idx: sel.Index, Val: t}, N: c.N, Elem: c.Elem}
 		}
 		if !sel.Index.IsConst() {
-			unsup("symbolic index store into array of non-scalars")
+			// weak update: after a store at a symbolic index nothing is known about any element of the table
+			// (reads give arbitrary read-only elements; writing through them stays refused)
+			return &ArrayV{N: c.N, Elem: c.Elem, Name: s.freshName("table.weak")}
 		}
 		n := &ArrayV{N: c.N, Elem: c.Elem, Vals: append([]Value{}, c.Vals...)}
 		for uint64(len(n.Vals)) <= sel.Index.Val {
